@@ -320,3 +320,77 @@ def fh1(ctx):
                       'a record can be stored with a handle to a different WAL file than the one it was written to (%s): its file could be deleted while the record is retained' % '; '.join(bad))
     if n == 0:
         ctx.missing('push', 'no RecordMeta push with a FileNumber parameter found')
+
+
+@rule('FT1', ['C10', 'C01'], floor=1, template='guard-polarity')
+def ft1(ctx):
+    """A file tracker always tracks at least one file: it is only ever built from a list that the
+    emptiness test found NON-empty (first() / first_file_number() unwrap on that, and an empty tracker
+    would also make open ignore the existing WAL files)."""
+    n = 0
+    for b in ctx.f.bodies.values():
+        if b.generic_dup() or b.is_test or b.is_closure:
+            continue
+        aggs = []
+        for bi, blk in enumerate(b.blocks):
+            if not b.live[bi]:
+                continue
+            for si, st in enumerate(blk['stmts']):
+                if st['k'] == 'assign' and st['rv']['k'] == 'agg' and strip_crate(st['rv'].get('adt') or '').endswith('rolling::file_number::FileTracker'):
+                    aggs.append((b.pstart[bi] + si, st['rv']))
+        if not aggs:
+            continue
+        fl = flow_of(b)
+        guards = []
+        for (bi, c, te, fe, cs) in b.switches_on_call(lambda c: re.search(r'(Vec::<.*>|\[.*\]>|BTreeSet::<.*>)::is_empty$', c.name) is not None):
+            guards.append((cs, fe, te))
+        # `len() == 0` / `len() < 1` / `len() >= 1` forms
+        for bj, blk in enumerate(b.blocks):
+            if not b.live[bj] or blk['term']['k'] != 'switch':
+                continue
+            c = b.switch_cond(bj)
+            if c and c['kind'] == 'bool':
+                for o in c['origin']:
+                    if o[0] == 'rv' and o[2]['k'] == 'binop' and o[2]['op'] in ('Eq', 'Ne', 'Lt', 'Ge', 'Gt', 'Le'):
+                        for (x, y, flip) in ((o[2]['a'], o[2]['b'], False), (o[2]['b'], o[2]['a'], True)):
+                            lx = op_local(x)
+                            if lx is None or op_const_bits(y) is None:
+                                continue
+                            lens = [t for t in b.trace_local(lx) if t[0] == 'call' and re.search(r'::len$', t[1].name)]
+                            if not lens:
+                                continue
+                            e = b.bool_edges(bj)
+                            if not e:
+                                continue
+                            k = op_const_bits(y)
+                            op = o[2]['op']
+                            if flip:
+                                op = {'Lt': 'Gt', 'Gt': 'Lt', 'Le': 'Ge', 'Ge': 'Le'}.get(op, op)
+                            # edge on which len >= 1
+                            nonempty = None
+                            if (op, k) in (('Eq', 0), ('Lt', 1), ('Le', 0)):
+                                nonempty, empty = e[1], e[0]
+                            elif (op, k) in (('Ne', 0), ('Ge', 1), ('Gt', 0)):
+                                nonempty, empty = e[0], e[1]
+                            if nonempty:
+                                guards.append((lens[0][1], nonempty, empty))
+        for (p, rv) in aggs:
+            n += 1
+            ok = False
+            for (cs, nonempty, empty) in guards:
+                src = cs.arg_local(0)
+                if b.edge_dominates(nonempty, p) and p not in b.reach([empty[1]], avoid_edges=[nonempty]):
+                    ok = True
+            if not ok:
+                # built from constants (e.g. FileTracker::new() = {0}): no input list to test
+                back = set()
+                for o in rvalue_operands(rv):
+                    back |= fl.backward(set(fl.op_nodes(o)))
+                from_param = any(('l', i) in back for i in range(1, b.arg_count + 1))
+                fills = any(re.search(r'BTreeSet::<.*>::insert$|From<\[.*; \d+\]>>::from$', c.name) and p in b.reach_after(c.point) for c in b.calls)
+                if not from_param and fills:
+                    ok = True
+            ctx.check(ok, '%s:FileTracker' % b.path, where(b, p), 'tracker built on the non-empty edge of the emptiness test',
+                      'a FileTracker is built without the list of file numbers having been found non-empty: an empty tracker panics in first() and makes open start a fresh log over existing WAL files')
+    if n == 0:
+        ctx.missing('tracker-constructions', 'no FileTracker construction found')
